@@ -29,7 +29,7 @@ class P(sb.StreamProp):
                'wrap-with-pending', 'read-after-eof'}
 
     def gen_scenario(self, rng):
-        return scenario.gen_scenario(rng, forbid=('vtrail',), want={'yymore': False, 'flavors': ['nr', 'nr', 'r', 'r', 'c99']})
+        return scenario.gen_scenario(rng, forbid=('vtrail',), want={'yymore': False, 'flavors': ['nr', 'nr', 'r', 'r', 'c99', 'cxx']})
 
     def gen_plan(self, rng, sc):
         return workload.gen_buffer_plan(rng, sc)
